@@ -991,8 +991,21 @@ func (*writerIndex).getLastOffset
     requires[locks] held(&ix.mu) == 0
     requires len(ix.items) > 0
 func (*writerIndex).append
-    flags locks lockonly noframe
+    flags locks only_locks only_struct noframe
     requires[locks] held(&ix.mu) == 0
+    // C02: the appended items continue the index: offsets above everything present, strictly increasing
+    requires[struct_ok] wfItems(ix.items, ix.nextOffset) && sortedOff(items) && posOK(items) && len(items) <= 1048576
+                        && (len(items) > 0 ==> items[0].Offset >= ix.nextOffset)
+                        && (ix.items == nil || items == nil || region(items) != region(ix.items))
+                        && len(ix.items) + len(items) <= 1152921504606846976
+    assigns writerIndex.items, writerIndex.nextOffset, writerIndex.nextTime
+    ensures[struct_len]   len(ix.items) == old(len(ix.items)) + len(items)
+    ensures[struct_old]   forall k :: 0 <= k && k < old(len(ix.items)) ==> ix.items[k] == old(ix.items)[k]
+    ensures[struct_new]   forall k :: old(len(ix.items)) <= k && k < len(ix.items) ==> ix.items[k] == items[k - old(len(ix.items))]
+    ensures[struct_wf]    wfItems(ix.items, ix.nextOffset)
+    ensures[struct_next]  ret0 == ix.nextOffset && (len(items) > 0 ==> ix.nextOffset == items[len(items)-1].Offset + 1)
+                          && (len(items) == 0 ==> ix.nextOffset == old(ix.nextOffset))
+    ensures[struct_frame] forall o *writerIndex :: o != ix ==> o.items == old(o.items) && o.nextOffset == old(o.nextOffset)
 func (*writerIndex).reader
     flags locks lockonly noframe
     requires[locks] held(&ix.mu) == 0
@@ -1028,14 +1041,28 @@ func (*reader).ConsumeByKey
     loop 1
       invariant[locks] rdLocksFree() && ixLocksFree()
 func (*writer).Publish
-    flags locks only_locks only_sync noframe
+    flags locks only_locks only_sync only_struct noframe
     requires[sync_ok] wOK(w)
     requires[locks] ixLocksFree()
-    assigns fsDirty, fsContent, writerIndex.items, writerIndex.nextOffset, writerIndex.nextTime
+    requires[struct_ok] w.index != nil && wfItems(w.index.items, w.index.nextOffset) && w.messages.pos >= 0 && len(msgs) <= 1048576
+                        && len(w.index.items) + len(msgs) <= 1152921504606846976
+    assigns fsDirty, fsContent, fData, fSize, message.Writer.pos, message.Writer.buff, index.Writer.pos, writerIndex.items, writerIndex.nextOffset, writerIndex.nextTime, elems(msgs)
     ensures[sync_frame] forall p string :: p != w.messages.Path && p != fPath[w.items.f] ==> fsDirty[p] == old(fsDirty[p])
+    // C02: dense consecutive offsets starting at the previous NextOffset, whatever offset the caller supplied
+    ensures[struct_ret]     ret1 == nil ==> ret0 == old(w.index.nextOffset) + len(msgs)
+    ensures[struct_offsets] ret1 == nil ==> forall j :: 0 <= j && j < len(msgs) ==> msgs[j].Offset == old(w.index.nextOffset) + j
+    ensures[struct_next]    ret1 == nil ==> w.index.nextOffset == old(w.index.nextOffset) + len(msgs)
+    ensures[struct_failed]  ret1 != nil ==> ret0 == OffsetInvalid && w.index.nextOffset == old(w.index.nextOffset) && w.index.items == old(w.index.items)
+    ensures[struct_wf]      wfItems(w.index.items, w.index.nextOffset) && w.messages.pos >= 0
+    ensures[struct_items]   ret1 == nil ==> len(w.index.items) == old(len(w.index.items)) + len(msgs)
+                            && (forall k :: 0 <= k && k < old(len(w.index.items)) ==> w.index.items[k] == old(w.index.items)[k])
+                            && (forall k :: 0 <= k && k < len(msgs) ==> w.index.items[old(len(w.index.items)) + k].Offset == old(w.index.nextOffset) + k)
     loop 1
       invariant[locks] ixLocksFree()
       invariant[sync]  wOK(w) && (forall p string :: p != w.messages.Path && p != fPath[w.items.f] ==> fsDirty[p] == old(fsDirty[p]))
+      invariant[struct_idx]   -1 <= rangeindex && rangeindex < len(msgs) && len(items) == len(msgs) && w.messages.pos >= 0
+      invariant[struct_same]  w.index != nil && w.index.items == old(w.index.items) && w.index.nextOffset == old(w.index.nextOffset) && nextOffset == old(w.index.nextOffset)
+      invariant[struct_done]  forall j :: 0 <= j && j <= rangeindex ==> msgs[j].Offset == nextOffset + j && items[j].Offset == nextOffset + j && items[j].Position >= 0
 func (*writer).Close
     flags locks lockonly noframe
     requires[locks] rdLocksFree()
